@@ -399,7 +399,15 @@ class SamplerProp(common.Prop):
     extended_cases = 400
 
     def corpus(self, ctx):
-        return [dict(c) for c in CORPUS]
+        cs = [dict(c) for c in CORPUS]
+        # minimised past failures / past false alarms of the oracle (corpus/C16/*.json)
+        import glob, json, os
+        for f in sorted(glob.glob(os.path.join(common.VERIF, 'corpus', 'C16', '*.json'))):
+            try:
+                cs.append(json.load(open(f))['input'])
+            except (OSError, ValueError, KeyError):
+                pass
+        return cs
 
     def generate(self, ctx, n):
         return [rand_case(ctx.rng) for _ in range(n)]
